@@ -324,13 +324,21 @@ class Response:
     def unpack(self, fmt):
         """struct.unpack of these bytes for a standard-size format (no alignment)"""
         import re as _re
-        m = _re.fullmatch(r'([<>=!]?)((?:\d*[xbBhHiIlLqQ])+)', fmt)
+        m = _re.fullmatch(r'([<>=!]?)((?:\d*[xbBhHiIlLqQs])+)', fmt)
         if not m or (m.group(1) == '' and _re.search(r'[hHiIlLqQ]', fmt)):
             raise core.EngineLimit('struct.unpack format %r on a device response' % fmt)
         little = m.group(1) in ('<', '') or (m.group(1) == '=' and __import__('sys').byteorder == 'little')
         sizes = dict(x=1, b=1, B=1, h=2, H=2, i=4, I=4, l=4, L=4, q=8, Q=8)
         out, pos = [], 0
-        for cnt, ch in _re.findall(r'(\d*)([xbBhHiIlLqQ])', m.group(2)):
+        for cnt, ch in _re.findall(r'(\d*)([xbBhHiIlLqQs])', m.group(2)):
+            if ch == 's':
+                # a byte string of that many bytes: handed on as a response slice
+                n = int(cnt) if cnt else 1
+                if pos + n > len(self.fields):
+                    raise __import__('struct').error('unpack requires a buffer of %d bytes' % (pos + n))
+                out.append(Response(self.fields[pos:pos + n]))
+                pos += n
+                continue
             for _ in range(int(cnt) if cnt else 1):
                 n = sizes[ch]
                 if pos + n > len(self.fields):
